@@ -86,7 +86,7 @@ def probes(kind="np"):
                 for s in ((), (2,), (3,), (2, 3)):
                     out.append(jnp.zeros(s, dtype=d))
             out += [jax.random.key(0), jax.random.split(jax.random.key(0), 2), jax.random.PRNGKey(0), np.zeros(()), np.zeros((2,), dtype="uint32"),
-                    True, 3, 2.5, 1j, np.float32(1), None, "s"]
+                    True, 3, 2.5, 1j, np.float32(1), None, "s", np.bool_(True), np.int8(1), np.complex64(1j), np.zeros((), dtype=bool)]
         _P[kind] = out
     return _P[kind]
 
@@ -231,6 +231,12 @@ T_PLAIN = TypeVar("T_PLAIN")
 T_BOUND = TypeVar("T_BOUND", bound=np.ndarray)
 T_CONS = TypeVar("T_CONS", np.ndarray, usercats.DuckArr)
 T_BOUND_ANN = TypeVar("T_BOUND_ANN", bound=Union[np.ndarray, usercats.DuckArr])
+class _ThirdArr(usercats.DuckArr):
+    """a third array type (its instances are DuckArr instances too)"""
+
+
+T_CONS_UNION = TypeVar("T_CONS_UNION", Union[np.ndarray, usercats.DuckArr], _ThirdArr)  # a constraint that is itself a union
+T_CONS_BAR = TypeVar("T_CONS_BAR", np.ndarray | usercats.DuckArr, _ThirdArr)
 try:  # PEP 696 defaults (typing_extensions builds genuine typing.TypeVar objects): a default says nothing about what the TypeVar may stand for
     import typing_extensions as _te
 
@@ -273,6 +279,10 @@ def law_union_typevar(ctx, cat, spec, form):
         lhs, rhs = (lambda: D[T_BOUND_DEFAULT, spec]), (lambda: Union[D[A, spec], D[B, spec]])
     elif form == "tv-constrained-default":
         lhs, rhs = (lambda: D[T_CONS_DEFAULT, spec]), (lambda: Union[D[A, spec], D[B, spec]])
+    elif form == "tv-constrained-union":
+        lhs, rhs = (lambda: D[T_CONS_UNION, spec]), (lambda: Union[D[A, spec], D[B, spec], D[_ThirdArr, spec]])
+    elif form == "tv-constrained-bar":
+        lhs, rhs = (lambda: D[T_CONS_BAR, spec]), (lambda: Union[D[A, spec], D[B, spec], D[_ThirdArr, spec]])
     elif form == "tv-constrained":
         lhs, rhs = (lambda: D[T_CONS, spec]), (lambda: Union[D[A, spec], D[B, spec]])
     else:
@@ -452,7 +462,7 @@ def run(ctx):
     ctx.hyp(nesting3, max_examples=ctx.n(120, 1200))
 
     @given(st.sampled_from(["Float", "Shaped", "Int", "Num", "Bool", "Float32", "UInt8", "Key"] + CATS), spec_st,
-           st.sampled_from(["Union-nested", "Union", "Union-rev", "bar", "bar-nested", "union3", "tv-plain", "tv-bound", "tv-bound-union", "tv-constrained"]
+           st.sampled_from(["Union-nested", "Union", "Union-rev", "bar", "bar-nested", "union3", "tv-plain", "tv-bound", "tv-bound-union", "tv-constrained", "tv-constrained-union", "tv-constrained-bar"]
                            + (["tv-bound-default", "tv-plain-default", "tv-constrained-default"] if T_PLAIN_DEFAULT is not None else [])))
     def union_typevar(cat, toks, form):
         obs.reset_state()
